@@ -160,6 +160,27 @@ R5 = {
  "C18_J": ("lru_cache on the parameter-default helper keyed by generated classes", "per-run generated class with a defaulted parameter", True, ""),
 }
 
+R6 = {
+ "C03_K": ("combinatorial product ordered by a natural-sort key of the variable names", "two variable names whose digit runs differ in length (t9 / t10)", False, "variable names t10 / t9 in multi-variable sweeps"),
+ "C03_L": ("variable-free expressions folded into an optional external default", "constant expression for a parameter that is also supplied in the node parameters or the context", False, "constant expressions (5.0, min(5.0, 7.0)) and computed parameters that are also given in the node parameters"),
+ "C04_K": ("required context keys sorted with key=str.casefold", "two required keys equal ignoring case, observed under different hash seeds", False, "fixed member of every C04 shard: renames of K1/k1, Out/out, Seq/seq, A/a"),
+ "C04_L": ("commutative normalisation skips keyword-argument values", "+/* chain inside a keyword argument (round(x, ndigits=p + q))", False, "fixed expression round(t * s, ndigits=int(1.0 + t + s)) with four commuting rewrites"),
+ "C05_K": ("and / or operands sorted in the expression signature", "sweep expression using and / or, operands exchanged", False, "AST mutation swap_boolean_operands; templates with and / or"),
+ "C05_L": ("node factory pops context-processor parameters from the caller's node dict before the uuid is hashed", "ModelFittingContextProcessor node, mutation of independent_var_key / dependent_var_key / context_key", False, "special clause: model-fitting parameter mutations"),
+ "C08_K": ("max_runs == 0 treated as 'no cap' by the pre-flight", "cap of exactly 0 and an oversized block", True, ""),
+ "C08_L": ("--run-space-file merged key by key into the pipeline's own run_space", "pipeline file with its own non-default run_space plus an override file that omits those keys", False, "CLI clause variant: plan from --run-space-file while the pipeline file carries a decoy run_space"),
+ "C09_K": ("file digest loop stops after the first MiB (off by one)", "source file > 1 MiB edited beyond it, same size", True, ""),
+ "C09_L": ("rename entries of unselected columns pruned in place before the spec is hashed", "select plus rename outside the selection", True, ""),
+ "C10_K": ("error text helper indexes KeyError.args[0]", "bare raise KeyError in a traced node", True, ""),
+ "C10_L": ("module:Class reference registers the whole module", "short-name node followed by a module:Class node whose module defines that short name too", False, "module verif/lib/shadow.py (its own FloatSquareOperation cubes) referenced as verif.lib.shadow:VShadowOnly after a FloatSquareOperation node"),
+ "C13_K": ("start >= end counted as contradictory bounds", "pipeline_start and pipeline_end with equal timestamps (runs failing at instantiation)", True, "(single runs that fail at instantiation were added as a generated kind all the same)"),
+ "C13_L": ("launch roll-up matches runs by launch id only", "two attempts of one launch id aggregated together", True, ""),
+ "C14_K": ("drained channel discarded without checking that the deque is still the registered one", "two subscribers of one channel, three messages, a re-created channel", False, "scenario two_subs_one_channel_three_messages"),
+ "C14_L": ("glob helper for pure-* patterns lets head and tail overlap", "pattern jobs.*.status and channel jobs.status", True, ""),
+ "C16_K": ("IO node kind chosen by MRO order, adapter still source-first", "component written class Store(DataSink, DataSource)", False, "component VDualStoreSinkFirst"),
+ "C16_L": ("strict-JSON digest raises for non-finite sweep values inside generated metadata", "explicit sequence with inf / nan", True, ""),
+}
+
 ALL = {}
 for k, v in R2.items():
     ALL[k] = v + (2,)
@@ -169,6 +190,8 @@ for k, v in R4.items():
     ALL[k] = v + (4,)
 for k, v in R5.items():
     ALL[k] = v + (5,)
+for k, v in R6.items():
+    ALL[k] = v + (6,)
 
 for name, (what, needs, first, strengthening, rnd) in sorted(ALL.items()):
     d = os.path.join(ROOT, "seeded", name)
